@@ -1,11 +1,198 @@
 /-
-  C03 — depth limits are respected (theorems are added below as they are proved).
+  C03 — depth limits are respected and every feasible depth limit is usable.
+
+  Side conditions (all decidable, evaluated per grammar by the harness):
+  * `distConsistent g` (Lemmas/Depth.lean): the distance table of the analysed grammar is
+    consistent with the class declarations (a directly instantiated class costs one level more
+    than each of its field types).  Both depth modes (`g.e = 0` tree depth, `g.e = 1` expansion
+    depth) are covered.
+  * `dec.kind.depthLimited`: grow, full, PI-grow and the dynamic-SGE decider.
+  * `dec.maxDepth < INF`: `INF = 1000000` is the library's "unreachable" distance; a limit at or
+    above it makes the budget test `dist ≤ remaining` meaningless for unproductive symbols.
 -/
 import GEVerif.Model.Synth
+import GEVerif.Model.Linear
+import GEVerif.Model.TreeOps
+import GEVerif.Lemmas.SynM
+import GEVerif.Lemmas.Depth
 
 namespace GEVerif.C03
-open GEVerif
+open GEVerif GEVerif.Depth
 
-theorem C03_placeholder : True := trivial
+/-! ### 1. Creation respects the limit -/
+
+/-- Main theorem.  Whatever the random source / genotype, the fuel, the type and the context:
+if the budget invariant `ctx.depth + dist ty ≤ maxDepth` holds at a call of `create_node`, the
+value it returns fits into the remaining budget. -/
+theorem C03_create_depth (g : Grammar) (dec : Decider) (fuel : Nat) (ty : Ty) (ctx : Ctx)
+    (deps : List (String × Val)) (s s' : SynSt) (v : Val)
+    (hc : distConsistent g = true) (hk : dec.kind.depthLimited = true)
+    (hD : dec.maxDepth < INF)
+    (hinv : ctx.depth + g.distOf ty ≤ dec.maxDepth)
+    (h : createNode g dec fuel ty ctx deps s = .ok v s') :
+    ctx.depth + v.depth ≤ dec.maxDepth :=
+  (depthP_all g dec hc hk hD fuel).1 ty ctx deps s v s' h hinv
+
+/-- The decider only ever returns an alternative that fits the remaining budget: this is what
+re-establishes the invariant below an abstract class or a union, with no assumption on the
+grammar at all. -/
+theorem C03_choose_fits (g : Grammar) (dec : Decider) (key : Ty) (alts : List Ty) (ctx : Ctx)
+    (s s' : SynSt) (t : Ty) (hk : dec.kind.depthLimited = true)
+    (h : chooseProd g dec key alts ctx s = .ok t s') :
+    t ∈ alts ∧ ctx.depth + g.distOf t ≤ dec.maxDepth := by
+  obtain ⟨hm, hf⟩ := chooseProd_fits g dec key alts ctx s s' t hk h
+  exact ⟨hm, (fits_iff g dec ctx t).1 hf⟩
+
+/-- Expanding an abstract class needs no invariant at the call (the decider filters). -/
+theorem C03_create_abstract_depth (g : Grammar) (dec : Decider) (fuel n : Nat) (prods : List Nat)
+    (ctx : Ctx) (s s' : SynSt) (v : Val)
+    (hc : distConsistent g = true) (hk : dec.kind.depthLimited = true)
+    (hD : dec.maxDepth < INF)
+    (h : createAbstract g dec fuel n prods ctx s = .ok v s') :
+    ctx.depth + v.depth ≤ dec.maxDepth :=
+  (depthP_all g dec hc hk hD fuel).2.1 n prods ctx s v s' h
+
+/-! ### 3. Infeasible limits are rejected up-front; feasible ones give the invariant -/
+
+private theorem valid_eq (g : Grammar) (dec : Decider) (hk : dec.kind.depthLimited = true) :
+    deciderValid g dec = decide (g.minTreeDepth ≤ dec.maxDepth) := by
+  unfold deciderValid
+  cases hkind : dec.kind <;> rw [hkind] at hk <;> first | rfl | exact absurd hk (by decide)
+
+/-- `validate()` rejects exactly the limits below the grammar minimum. -/
+theorem C03_reject_upfront (g : Grammar) (dec : Decider) (hk : dec.kind.depthLimited = true) :
+    deciderValid g dec = false ↔ dec.maxDepth < g.minTreeDepth := by
+  rw [valid_eq g dec hk, decide_eq_false_iff_not]; omega
+
+/-- The dynamic-SGE mapping performs that check before touching the genotype or the shared
+stream: the error is the library's, and the state is the initial one. -/
+theorem C03_reject_upfront_dsge (g : Grammar) (maxDepth fuel : Nat) (dna : DSGEDna)
+    (shared : Script) (h : maxDepth < g.minTreeDepth) :
+    mapDSGE g maxDepth fuel dna shared = .err .library { src := .scripted shared, dna := dna } := by
+  have hv : deciderValid g { kind := .dsge, maxDepth := maxDepth } = false :=
+    (C03_reject_upfront g { kind := .dsge, maxDepth := maxDepth } rfl).2 h
+  unfold mapDSGE
+  simp only [hv, Bool.not_false, if_true]
+
+/-- An accepted limit gives the budget invariant at the root call. -/
+theorem C03_valid_gives_invariant (g : Grammar) (dec : Decider)
+    (hk : dec.kind.depthLimited = true) (hv : deciderValid g dec = true) :
+    (⟨0, 0⟩ : Ctx).depth + g.distOf (.cls g.spec.start) ≤ dec.maxDepth := by
+  rw [distOf_start]
+  rw [valid_eq g dec hk, decide_eq_true_eq] at hv
+  simpa using hv
+
+/-! ### 2. Corollaries: initialisers, genotype mappings, variation -/
+
+theorem C03_random_tree_depth (g : Grammar) (dec : Decider) (fuel : Nat) (s s' : SynSt) (v : Val)
+    (hc : distConsistent g = true) (hk : dec.kind.depthLimited = true)
+    (hD : dec.maxDepth < INF) (hv : deciderValid g dec = true)
+    (h : randomTree g dec fuel s = .ok v s') : v.depth ≤ dec.maxDepth := by
+  have := C03_create_depth g dec fuel _ _ _ s s' v hc hk hD
+    (C03_valid_gives_invariant g dec hk hv) h
+  simpa using this
+
+/-- GE: the genotype is the random source of decider and metahandlers. -/
+theorem C03_mapGE_depth (g : Grammar) (dec : Decider) (fuel : Nat) (dna : List Int)
+    (expanding : Bool) (s' : SynSt) (v : Val)
+    (hc : distConsistent g = true) (hk : dec.kind.depthLimited = true)
+    (hD : dec.maxDepth < INF) (hv : deciderValid g dec = true)
+    (h : mapGE g dec fuel dna expanding = .ok v s') : v.depth ≤ dec.maxDepth :=
+  C03_random_tree_depth g dec fuel _ s' v hc hk hD hv h
+
+/-- structured GE -/
+theorem C03_mapSGE_depth (g : Grammar) (dec : Decider) (fuel : Nat) (dna : SGEDna)
+    (expanding : Bool) (s' : SynSt) (v : Val)
+    (hc : distConsistent g = true) (hk : dec.kind.depthLimited = true)
+    (hD : dec.maxDepth < INF) (hv : deciderValid g dec = true)
+    (h : mapSGE g dec fuel dna expanding = .ok v s') : v.depth ≤ dec.maxDepth :=
+  C03_mapGE_depth g dec fuel _ expanding s' v hc hk hD hv h
+
+/-- dynamic structured GE (the mapping validates the limit itself) -/
+theorem C03_mapDSGE_depth (g : Grammar) (maxDepth fuel : Nat) (dna : DSGEDna) (shared : Script)
+    (s' : SynSt) (v : Val) (hc : distConsistent g = true) (hD : maxDepth < INF)
+    (h : mapDSGE g maxDepth fuel dna shared = .ok v s') : v.depth ≤ maxDepth := by
+  unfold mapDSGE at h
+  dsimp only at h
+  by_cases hv : deciderValid g { kind := .dsge, maxDepth := maxDepth } = true
+  · rw [if_neg (by simp [hv])] at h
+    exact C03_random_tree_depth g { kind := .dsge, maxDepth := maxDepth } fuel _ s' v hc rfl hD hv h
+  · rw [if_pos (by simpa using hv)] at h
+    cases h
+
+/-- `tree_mutate`: the child is created afresh at the parent's stored root context. -/
+theorem C03_mutate_depth (g : Grammar) (dec : Decider) (fuel : Nat) (i : Val) (s s' : SynSt)
+    (c : Val) (hc : distConsistent g = true) (hk : dec.kind.depthLimited = true)
+    (hD : dec.maxDepth < INF) (hv : deciderValid g dec = true)
+    (hroot : ∀ ctx, i.ctx = some ctx → ctx.depth + g.minTreeDepth ≤ dec.maxDepth)
+    (h : treeMutate g dec fuel i s = .ok c s') : c.depth ≤ dec.maxDepth := by
+  have hmin : g.minTreeDepth ≤ dec.maxDepth := by
+    have := C03_valid_gives_invariant g dec hk hv
+    rw [distOf_start] at this; simpa using this
+  exact mutateRoot_depth g dec fuel i none s s' c hc hk hD hmin hroot (fun _ h => by cases h) h
+
+/-- `tree_crossover`: each child is a fresh tree at its parent's stored root context or a
+sub-value of the other parent. -/
+theorem C03_crossover_depth (g : Grammar) (dec : Decider) (fuel : Nat) (p1 p2 : Val)
+    (s s' : SynSt) (c1 c2 : Val)
+    (hc : distConsistent g = true) (hk : dec.kind.depthLimited = true)
+    (hD : dec.maxDepth < INF) (hv : deciderValid g dec = true)
+    (hroot1 : ∀ ctx, p1.ctx = some ctx → ctx.depth + g.minTreeDepth ≤ dec.maxDepth)
+    (hroot2 : ∀ ctx, p2.ctx = some ctx → ctx.depth + g.minTreeDepth ≤ dec.maxDepth)
+    (hp1 : p1.depth ≤ dec.maxDepth) (hp2 : p2.depth ≤ dec.maxDepth)
+    (h : treeCrossover g dec fuel p1 p2 s = .ok (c1, c2) s') :
+    c1.depth ≤ dec.maxDepth ∧ c2.depth ≤ dec.maxDepth := by
+  have hmin : g.minTreeDepth ≤ dec.maxDepth := by
+    have := C03_valid_gives_invariant g dec hk hv
+    rw [distOf_start] at this; simpa using this
+  unfold treeCrossover at h
+  rw [SynM.bind_ok] at h
+  obtain ⟨a, s1, h1, h⟩ := h
+  rw [SynM.bind_ok] at h
+  obtain ⟨b, s2, h2, h⟩ := h
+  rw [SynM.pure_ok] at h
+  obtain ⟨hab, _⟩ := h
+  cases hab
+  exact ⟨mutateRoot_depth g dec fuel p1 (some p2) s s1 _ hc hk hD hmin hroot1
+      (fun _ h => by cases h; exact hp2) h1,
+    mutateRoot_depth g dec fuel p2 (some p1) s1 s2 _ hc hk hD hmin hroot2
+      (fun _ h => by cases h; exact hp1) h2⟩
+
+/-- Variation under the same limit: parents whose stored root context has depth 0 (every
+individual produced by `random_tree` or a genotype mapping) and which respect the limit have
+children that respect the limit. -/
+theorem C03_variation_depth (g : Grammar) (dec : Decider) (fuel : Nat) (p1 p2 : Val)
+    (hc : distConsistent g = true) (hk : dec.kind.depthLimited = true)
+    (hD : dec.maxDepth < INF) (hv : deciderValid g dec = true)
+    (hroot1 : ∀ ctx, p1.ctx = some ctx → ctx.depth = 0)
+    (hroot2 : ∀ ctx, p2.ctx = some ctx → ctx.depth = 0)
+    (hp1 : p1.depth ≤ dec.maxDepth) (hp2 : p2.depth ≤ dec.maxDepth) :
+    (∀ s s' c, treeMutate g dec fuel p1 s = .ok c s' → c.depth ≤ dec.maxDepth) ∧
+    (∀ s s' c1 c2, treeCrossover g dec fuel p1 p2 s = .ok (c1, c2) s' →
+      c1.depth ≤ dec.maxDepth ∧ c2.depth ≤ dec.maxDepth) := by
+  have hmin : g.minTreeDepth ≤ dec.maxDepth := by
+    have := C03_valid_gives_invariant g dec hk hv
+    rw [distOf_start] at this; simpa using this
+  have r1 : ∀ ctx, p1.ctx = some ctx → ctx.depth + g.minTreeDepth ≤ dec.maxDepth := by
+    intro ctx h; rw [hroot1 ctx h]; omega
+  have r2 : ∀ ctx, p2.ctx = some ctx → ctx.depth + g.minTreeDepth ≤ dec.maxDepth := by
+    intro ctx h; rw [hroot2 ctx h]; omega
+  exact ⟨fun s s' c h => C03_mutate_depth g dec fuel p1 s s' c hc hk hD hv r1 h,
+    fun s s' c1 c2 h => C03_crossover_depth g dec fuel p1 p2 s s' c1 c2 hc hk hD hv r1 r2 hp1 hp2 h⟩
+
+/-! ### Non-vacuity: the hypotheses hold on a concrete analysed grammar with an abstract class,
+recursion, a list-of-abstract field and a union; the limit is reached exactly -/
+
+example : distConsistent exG = true := by decide
+example : exG.minTreeDepth = 1 := by decide
+example : deciderValid exG ⟨.grow, 1⟩ = true ∧ deciderValid exG ⟨.grow, 0⟩ = false := by decide
+-- frontier: the limit equals the grammar minimum
+example : depthOf (randomTree exG ⟨.grow, 1⟩ 50 (exSt [])) = some 1 := by decide
+example : depthOf (randomTree exG ⟨.grow, 3⟩ 50 (exSt [1, 1, 0, 3, 0, 0])) = some 3 := by decide
+example : depthOf (randomTree exG ⟨.full, 3⟩ 50 (exSt [1, 1, 0, 3, 0, 0])) = some 2 := by decide
+example : depthOf (randomTree exG ⟨.pigrow, 3⟩ 50 (exSt [1, 1, 0, 3, 0, 0])) = some 2 := by decide +kernel
+example : depthOf (mapGE exG ⟨.grow, 3⟩ 50 [1, 1, 0, 3, 0, 0] true) = some 2 := by decide
+example : depthOf (mapDSGE exG 3 50 [] { draws := [1, 1, 0, 3, 0, 0] }) = some 3 := by decide +kernel
+example : depthOf (mapDSGE exG 0 50 [] { draws := [] }) = none := by decide
 
 end GEVerif.C03
